@@ -883,6 +883,10 @@ def run(ctx):
     # constructor / setter validation, covariance cache, compute_cov) — Model/C04_gaussobj.lean
     from harness.props.c04_gaussobj import gaussobj_section
     gaussobj_section(ctx, D, rng, S)
+    from harness.props.c04_eig import gauss_eig_section
+    gauss_eig_section(ctx, D, rng, S, thorough)
+    from harness.props.c04_dim import dim_section
+    dim_section(ctx, D, G, rng, S)
 
     # =================================================================== 6. normalisation by quadrature
     quadrature_section(ctx, D, G, rng, S)
@@ -1830,7 +1834,7 @@ def gauss_scale_bigdim_section(ctx, D, rng, S):
     for i, form in enumerate(("cov", "prec", "sqrtcov", "sqrtprec")):
         exps = (-40, -33, 20, 33) if form in ("cov", "prec") else (-20, -17, 10, 16)      # square roots: the product is scaled by the square
         if ctx.tier != "thorough":       # quick: one small and one large scale per form (alternating with the seed); thorough: all four
-            exps = (exps[(i + ctx.seed) % 2], exps[2 + (i + ctx.seed) % 2])
+            exps = (exps[(i + ctx.seed) % 2],) if (i + ctx.seed // 2) % 2 == 0 else (exps[2 + (i + ctx.seed) % 2],)   # 4 cases; the eig stream (c04_eig.py) scales too
         for j, e in enumerate(exps):
             n = (76, 80, 77, 84)[(i + j + ctx.seed) % 4]
             A = band(n, rng.choice([2.0, 3.0]), rng.choice([1.0, -1.0, 0.5])) * (2.0 ** e)
